@@ -18,6 +18,8 @@ type Tm struct {
 	ID  string `json:"id,omitempty"`  // predicate identifier (pa, pb)
 	Lo  *int64 `json:"lo,omitempty"`  // pb bounds, unix nanos
 	Hi  *int64 `json:"hi,omitempty"`
+	LoB string `json:"lob,omitempty"` // pb bounds given by bindings: "id"@[?lo,?hi]
+	HiB string `json:"hib,omitempty"`
 	As  string `json:"as,omitempty"`
 	Ty  string `json:"ty,omitempty"`  // TYPE alias
 	IDb string `json:"idb,omitempty"` // ID alias
@@ -94,7 +96,7 @@ func (t Tm) render(pos byte) string {
 	case "pa":
 		s = fmt.Sprintf("%q@[%s]", t.ID, t.B)
 	case "pb":
-		lo, hi := "", ""
+		lo, hi := t.LoB, t.HiB
 		if t.Lo != nil {
 			lo = fmtTime(*t.Lo)
 		}
@@ -318,6 +320,21 @@ func (g *qgen) clause(first bool, o qopts) QClause {
 			c.P = Tm{K: "pa", ID: string(p.ID()), B: b}
 		} else {
 			c.P = Tm{K: "pa", ID: string(p.ID()), B: g.fresh("time")}
+		}
+	case x < 6 && temporal && !o.clean && r.Chance(0.25):
+		// bounds taken from bindings (of an earlier clause, or unbound)
+		c.P = Tm{K: "pb", ID: string(p.ID())}
+		pick := func() string {
+			if b := g.reuse("time"); b != "" && r.Chance(0.8) {
+				return b
+			}
+			return "?unbound"
+		}
+		if r.Bool() {
+			c.P.LoB = pick()
+		}
+		if r.Bool() || c.P.LoB == "" {
+			c.P.HiB = pick()
 		}
 	case x < 6 && temporal && r.Chance(o.bounds):
 		c.P = Tm{K: "pb", ID: string(p.ID())}
